@@ -60,7 +60,34 @@ def corpus_cases():
                 c.op("removefile", vfx.ps(t, "d/x")); c.op("metadata", vfx.ps(t, "d"))
             c.op("snap", t)
             cases.append(c)
-    return cases + link_cases()
+    return cases + link_cases() + failed_call_cases()
+
+
+def failed_call_cases():
+    """calls that FAIL on a stamped entry (open_file / append_file / read_to_string / copy_file on a directory, create_dir
+    over it, remove_file of a directory, read_dir of a file) must leave its three timestamps alone"""
+    rng = random.Random(77)
+    T1, T2, T3 = hist.TIMES[1], hist.TIMES[4], hist.TIMES[5]
+    cases = []
+    for kind in ("mem", "alt_mem", "ovl_mm", "ovl_sub", "phys"):
+        c = vfx.Case("c19_failed_%s" % kind)
+        g = hist.build_config(c, kind, rng)
+        c.cfg = g
+        t = g.target
+        c.op("createdir", vfx.ps(t, "d"))
+        hist.write_file(c, t, "f", b"content")
+        for tgt in ("d", "f"):
+            c.op("setctime", vfx.ps(t, tgt), T1); c.op("setmtime", vfx.ps(t, tgt), T2); c.op("setatime", vfx.ps(t, tgt), T3)
+            c.op("metadata", vfx.ps(t, tgt))
+        h = c.op("openfile", vfx.ps(t, "d")); c.op("hdrop", h); c.op("metadata", vfx.ps(t, "d"))
+        h = c.op("appendfile", vfx.ps(t, "d")); c.op("hdrop", h); c.op("metadata", vfx.ps(t, "d"))
+        c.op("readtostring", vfx.ps(t, "d")); c.op("metadata", vfx.ps(t, "d"))
+        c.op("copyfile", vfx.ps(t, "d"), vfx.ps(t, "zz")); c.op("metadata", vfx.ps(t, "d"))
+        c.op("createdir", vfx.ps(t, "d")); c.op("removefile", vfx.ps(t, "d")); c.op("metadata", vfx.ps(t, "d"))
+        c.op("readdir", vfx.ps(t, "f")); c.op("createdir", vfx.ps(t, "f")); c.op("removedir", vfx.ps(t, "f")); c.op("metadata", vfx.ps(t, "f"))
+        c.op("snap", t)
+        cases.append(c)
+    return cases
 
 
 def link_cases():
